@@ -135,11 +135,21 @@ func (pass *DisjunctionInferMapping) inferDiscriminatorField(schema *ast.Schema,
 
 	for _, candidateFieldName := range candidatesOrder[someType] {
 		existsInAllBranches := true
+		// a constant that has the same value in two branches tells nothing apart
+		valuesSeen := make(map[string]struct{}, len(allTypes))
 		for _, branchTypeName := range allTypes {
-			if _, ok := candidates[branchTypeName][candidateFieldName]; !ok {
+			value, ok := candidates[branchTypeName][candidateFieldName]
+			if !ok {
 				existsInAllBranches = false
 				break
 			}
+
+			valueKey := fmt.Sprintf("%v", value)
+			if _, seen := valuesSeen[valueKey]; seen {
+				existsInAllBranches = false
+				break
+			}
+			valuesSeen[valueKey] = struct{}{}
 		}
 
 		if existsInAllBranches {
